@@ -569,3 +569,8 @@ def run(chk, S: Session):
     borrow(chk, S, rb, "C17", lambda r, c: r == "R-C17-1")
     rb2 = chk.rule("R-C11-B2", "'...and reject lift orders that the supplied coefficients cannot support': guard-table rows of C20 for the lifting API and for constraints built on a state with too few Taylor coefficients", floor=9)
     borrow(chk, S, rb2, "C20", lambda r, c: r == "R-C20-1" and ("too few Taylor coefficients" in c or "lift order" in c or "jet_lift" in c))
+    # an option passed to a constructor arrives in the attribute of its own name (the rules above read options through those attributes)
+    from .ctor_wiring import ctor_wiring_rules
+
+    rcw = chk.rule("R-C11-W", "constructor wiring of the problem descriptions: every attribute that carries a constructor parameter's name holds that parameter, not another one", floor=10)
+    ctor_wiring_rules(chk, S, rcw, [PROBLEMS + ".JetAbstract", PROBLEMS + "._JetOdeCommon", PROBLEMS + ".JetOdeAutonomous", PROBLEMS + ".JetResidual"])
